@@ -9,6 +9,7 @@ PID = "C16"
 LEVEL = "other"
 CRATES = ["rlib_treap"]
 RELEASE = False
+WORKSPACE_IN_THOROUGH = True  # H3 (who writes the pub priority field) is a whole-workspace rule
 ARMED = True
 ENGINES = ["E1", "E3", "E4a", "E6"]
 TECHNIQUE = "term-flow abstract interpretation: entailment of priority order at merge's root choice, result-assembly equality for splits, who-may-write and backward provenance of the priority field, read-modify-write shape of the per-thread generator draw"
